@@ -238,6 +238,7 @@ func cmdCrashKv(fs *flag.FlagSet, args []string) {
 			return d, ok && okAll
 		})
 		emit("crashsum workload=%d events=%d crashpoints=%d checked=%d distinct-recovered-states=%d", w, len(events), total, checked, distinct)
+		observedCrashKv(w, *seed, disksz, kvsz)
 	}
 }
 
@@ -462,3 +463,96 @@ func observedCrash(w int, seed uint64, disksz uint64, fhOf func(uint64) nfstypes
 }
 
 func afterSeconds(n int) <-chan time.Time { return time.After(time.Duration(n) * time.Second) }
+
+// observedCrashKv: the same question for the key/value store.  One caller puts generations 1, 2,
+// 3, ... of a key (8-byte counter at the start of the block) while two others get it all the
+// time; the server crashes at the trace position of each first reply that showed a generation
+// (un-barriered writes lost), and the recovered store must not serve an older one.
+func observedCrashKv(w int, seed uint64, disksz, kvsz uint64) {
+	rec := NewRecDisk(disksz)
+	rec.slow = func(a uint64) {
+		if a == 0 {
+			time.Sleep(300 * time.Microsecond)
+		}
+	}
+	store := kvs.MkKVS(rec, kvsz)
+	const key = 700
+	const steps = 40
+	genOf := func(v []byte) uint64 {
+		var g uint64
+		for i := 0; i < 8 && i < len(v); i++ {
+			g |= uint64(v[i]) << (8 * uint(i))
+		}
+		return g
+	}
+	var obsMu sync.Mutex
+	first := map[uint64]int{}
+	var stop int32
+	var wg sync.WaitGroup
+	nobs := 0
+	for g := 0; g < 2; g++ {
+		wg.Add(1)
+		go func() {
+			defer wg.Done()
+			defer func() { recover() }()
+			for atomic.LoadInt32(&stop) == 0 {
+				p, ok := store.Get(key)
+				pos := rec.pos()
+				if !ok || p == nil {
+					continue
+				}
+				gen := genOf(p.Val)
+				obsMu.Lock()
+				nobs++
+				if q, seen := first[gen]; !seen || pos < q {
+					first[gen] = pos
+				}
+				obsMu.Unlock()
+			}
+		}()
+	}
+	okRun := guardedCall(func() {
+		for i := 1; i <= steps; i++ {
+			v := make([]byte, 4096)
+			for b := 0; b < 8; b++ {
+				v[b] = byte(uint64(i) >> (8 * uint(b)))
+			}
+			store.MultiPut([]kvs.KVPair{{Key: key, Val: v}})
+			time.Sleep(200 * time.Microsecond)
+		}
+	})
+	atomic.StoreInt32(&stop, 1)
+	wg.Wait()
+	if !okRun {
+		emit("# ORACLE C18 request-did-not-return kv observed workload %d (seed %d): MultiPut with a concurrent Get panicked or hung", w, seed)
+		return
+	}
+	rec.mu.Lock()
+	events := rec.events
+	rec.mu.Unlock()
+	var gens []uint64
+	for g := range first {
+		gens = append(gens, g)
+	}
+	sort.Slice(gens, func(i, j int) bool { return gens[i] < gens[j] })
+	checked := 0
+	for _, g := range gens {
+		p := first[g]
+		img := buildImage(events, p, nil, true)
+		var got uint64
+		if !guardedCall(func() {
+			st := kvs.MkKVS(NewOverlay(disksz, img), kvsz)
+			pr, _ := st.Get(key)
+			got = genOf(pr.Val)
+		}) {
+			emit("# ORACLE C18 recovery-crashed kv observed workload %d (seed %d): recovery from the image at crash point %d panicked or hung", w, seed, p)
+			continue
+		}
+		checked++
+		if got < g {
+			emit("# ORACLE C18 reported-state-lost kv observed workload %d (seed %d): a Get reply received after %d of %d disk events returned generation %d of key %d (puts write generations 1, 2, 3, ...); the store crashed right then (un-barriered writes lost), recovered, and serves generation %d: a Get returned the value of a put that was not durable", w, seed, p, len(events), g, key, got)
+			break
+		}
+	}
+	emit("crashobs workload=%d events=%d getattr-replies=%d distinct-sizes-reported=%d checked=%d", w, len(events), nobs, len(gens), checked)
+}
